@@ -74,6 +74,10 @@ def cases(tier):
         C.append({"kind": "hand", "which": "planar_big_leaky", "dim": dim, "orient": "as_is"})
         for depth in (0, 2):
             C.append({"kind": "hand", "which": "bnaf", "dim": dim, "orient": "inverted", "depth": depth})
+        # flows onto a restricted sample space (a positive-valued target): all the mass must lie inside the support - the density
+        # is integrated over the whole of R^d, so a finite value outside the support shows as mass above one
+        C.append({"kind": "hand", "which": "tail_exp", "dim": dim, "orient": "as_is"})
+        C.append({"kind": "hand", "which": "tail_softplus", "dim": dim, "orient": "as_is"})
     return C
 
 
@@ -142,6 +146,7 @@ def cubature(ev, d, s=3.0, n0=None, tol_q=5e-3, max_depth=14, max_evals=3e6, mas
         lo = np.stack(np.meshgrid(e[:-1], e[:-1], indexing="ij"), -1).reshape(-1, 2)
         hi = np.stack(np.meshgrid(e[1:], e[1:], indexing="ij"), -1).reshape(-1, 2)
     total, err, evals, depth, forced = 0.0, 0.0, 0, 0, 0
+    total_conv, err_conv = 0.0, 0.0  # cells accepted on their own merits (never force-accepted): a lower bound of the mass, the density being >= 0
     accepted_before = 0.0
     capped = []  # estimate if refinement had been capped at each depth
     leaves_lo, leaves_hi, leaves_m = [], [], []
@@ -154,6 +159,8 @@ def cubature(ev, d, s=3.0, n0=None, tol_q=5e-3, max_depth=14, max_evals=3e6, mas
         E = np.abs(I3 - I2)
         vol = np.prod(hi - lo, 1) / (2.0**d)
         bad = (E > np.maximum(tol_q / 4 * vol, 1e-14)) | (I3 > mass_split)
+        total_conv += float(I3[~bad].sum())
+        err_conv += float(E[~bad].sum())
         if depth >= max_depth or evals > max_evals:
             forced += int(bad.sum())
             bad[:] = False
@@ -173,7 +180,8 @@ def cubature(ev, d, s=3.0, n0=None, tol_q=5e-3, max_depth=14, max_evals=3e6, mas
         lo, hi = np.concatenate(nl), np.concatenate(nh)
         depth += 1
     L = {"lo": np.concatenate(leaves_lo), "hi": np.concatenate(leaves_hi), "m": np.concatenate(leaves_m)}
-    return {"I": total, "E": err, "evals": evals, "depth": depth, "forced": forced, "capped": capped, "leaves": L, "n0": n0, "s": s}
+    return {"I": total, "E": err, "evals": evals, "depth": depth, "forced": forced, "capped": capped, "leaves": L, "n0": n0, "s": s,
+            "I_conv": total_conv, "E_conv": err_conv}
 
 
 def verdict(res, tol_q):
@@ -188,6 +196,10 @@ def verdict(res, tol_q):
     if dlev >= 4:
         conv = conv and abs(cap[dlev] - cap[dlev - 4]) < tol_q / 4
     if I > 1 + tol_q + 2 * E and res["forced"] == 0:
+        return "violated"
+    # the cells that converged on their own already hold more than one unit of mass (a density is non-negative, so the cells still
+    # being refined / force-accepted can only add to it): e.g. a density that is positive on an unbounded region outside the support
+    if res.get("I_conv", 0.0) > 1 + 10 * tol_q + 2 * res.get("E_conv", 0.0):
         return "violated"
     if abs(I - 1) > tol_q + 2 * E and conv:
         return "violated"
@@ -242,6 +254,10 @@ def run_shard(shard):
             b = B.Invert(B.Chain([big(k[0], 3.0), big(k[1], -6.0)]))
         elif c["which"] == "bnaf":
             b = B.BlockAutoregressiveNetwork(k[0], dim=dim, depth=c["depth"], block_dim=2)
+        elif c["which"] in ("tail_exp", "tail_softplus"):
+            inner = B.Chain([B.Affine(0.3 * jr.normal(k[0], (dim,)), jnp.exp(0.2 * jr.normal(k[1], (dim,)) - 0.7)),
+                             B.Vmap(eqx.filter_vmap(lambda: B.RationalQuadraticSpline(knots=4, interval=2), axis_size=dim)(), in_axes=eqx.if_array(0))])
+            b = B.Chain([inner, B.Exp((dim,)) if c["which"] == "tail_exp" else B.SoftPlus((dim,))])
         else:
             raise KeyError(c["which"])
         if c["orient"] == "inverted":
@@ -299,7 +315,7 @@ def run_shard(shard):
                        "evaluations": res["evals"], "depth": res["depth"], "force_accepted_cells": res["forced"], "depth_capped_estimates": res["capped"][-5:], "verdict": vd}
             if vd == "violated":
                 rec.violation("mass", f"{name}: exp(log_prob) integrates to {res['I']:.5f} (rule difference {res['E']:.1e}, {res['evals']:.2e} evaluations, depth "
-                                      f"{res['depth']}, converged: capped estimates {['%.5f' % v_ for v_ in res['capped'][-5:]]})", it, ("init", 0.0), summary)
+                                      f"{res['depth']}, mass of the cells that converged on their own {res.get('I_conv', float('nan')):.5f}, capped estimates {['%.5f' % v_ for v_ in res['capped'][-5:]]})", it, ("init", 0.0), summary)
                 continue
             if vd != "held":
                 continue
